@@ -1083,3 +1083,569 @@ Example C04_uts46_walk_premises_hold :
   /\ Uts46.to_unicode Idna_WalkEnc.toy_s true [226; 128; 143; 46; 120; 110; 45; 45; 98; 99; 104; 101; 114; 45; 107; 118; 97] Uts46.DENY_EMPTY Uts46.HAllow
      = Uts46.UI false [65533; 46; 98; 252; 99; 104; 101; 114] true.
 Proof. split; [exact Idna_WalkEnc.toy_s_np|]. split; [exact Idna_WalkEnc.toy_s_usv|]. vm_compute. split; reflexivity. Qed.
+
+(* ===== reached records, the inventory table, cost of the remaining states (task c04fin) ===== *)
+From RU Require Proofs.C04_Chain Proofs.C03_ReachParts Proofs.C03_ReachHist Proofs.C05_CompSteps3.
+
+(* Url::parse (no base): never a panic - every input, any host functions, both configurations (the class of F-C04-7
+   needs a file base) *)
+Theorem C04_parse_no_base_no_panic : forall dbg hp hpo hd ovr input, parse_url dbg hp hpo hd ovr None input <> PPanic.
+Proof. exact C04_Chain.parse_no_base_no_panic. Qed.
+Check C04_parse_no_base_no_panic : forall dbg hp hpo hd ovr input, parse_url dbg hp hpo hd ovr None input <> PPanic.
+Print Assumptions C04_parse_no_base_no_panic.
+
+(* C04_parse_panic_iff WITHOUT its base_ok premise when the base is itself a result of Url::parse / Url::join
+   (PJ dbg' hp hpo hd: parse without base, or parse against any record of PJ; the chain may come from either build
+   configuration): base_ok reproduces itself (C05_parse_base_ok).  Only hypothesis: HostWf on the host functions
+   (Display text of a host non-empty, not starting with ':' / '@', not ending in '/'; C09 discharges it for the
+   host model).  Second part: no panic in a release build, and none when the base is not a file URL. *)
+Theorem C04_join_panic_iff_reached : forall hp hpo hd, C03_ReachParts.HostWf hp hpo hd ->
+  forall dbg dbg' ovr b input, C05_CompSteps3.PJ dbg' hp hpo hd b ->
+  (parse_url dbg hp hpo hd ovr (Some b) input = PPanic <-> dbg = true /\ C04_ParseFile7.known_c04_7x (Some b) input = true)
+  /\ (dbg = false \/ list_eqb (b_scheme b) s_file = false -> parse_url dbg hp hpo hd ovr (Some b) input <> PPanic).
+Proof.
+  intros hp hpo hd HW dbg dbg' ovr b input R.
+  exact (conj (C04_Chain.join_panic_iff_pj hp hpo hd HW dbg dbg' ovr b input R)
+              (C04_Chain.join_no_panic_pj hp hpo hd HW dbg dbg' ovr b input R)).
+Qed.
+Check C04_join_panic_iff_reached : forall hp hpo hd, C03_ReachParts.HostWf hp hpo hd ->
+  forall dbg dbg' ovr b input, C05_CompSteps3.PJ dbg' hp hpo hd b ->
+  (parse_url dbg hp hpo hd ovr (Some b) input = PPanic <-> dbg = true /\ C04_ParseFile7.known_c04_7x (Some b) input = true)
+  /\ (dbg = false \/ list_eqb (b_scheme b) s_file = false -> parse_url dbg hp hpo hd ovr (Some b) input <> PPanic).
+Print Assumptions C04_join_panic_iff_reached.
+
+(* the premises wf_b / wfh / base_ok of C04_no_panic_accessors, C04_no_panic_setters, C04_no_panic_setters2 and
+   C04_parse_panic_iff hold of every record of a parse / join chain (PJ) and wf_b / wfh of every record of a history of
+   reach03 (parse, join, set_fragment, set_query, set_port, set_password, set_username, set_scheme, set_host(None),
+   set_ip_host, set_path, path_segments_mut sessions: Proofs/C03_ReachHist.v); third part: the mutators with an exact
+   panic class, on a reached receiver *)
+Theorem C04_reached_premises : forall hp hpo hd, C03_ReachParts.HostWf hp hpo hd ->
+  (forall dbg u, C05_CompSteps3.PJ dbg hp hpo hd u -> wf_b u = true /\ C06_Main.wfh u /\ C04_ParseTotal.base_ok u = true)
+  /\ (forall dbg u, C03_ReachHist.reach03 dbg hp hpo hd u -> wf_b u = true /\ C06_Main.wfh u)
+  /\ (forall dbg dbg' u, C03_ReachHist.reach03 dbg' hp hpo hd u ->
+        (forall p, exists u', Setters.set_path dbg u p = Some u')
+        /\ (forall ops, Setters.path_segments_session dbg u ops = None <-> dbg = true /\ C04_SetPath.psm_assert_fails u = true)
+        /\ (forall h, Setters.set_host dbg hp hpo hd u h = None <-> dbg = true /\ h = None /\ C04_SetHost.known_c04_1 u = true)
+        /\ (forall h, exists r, Setters.set_ip_host dbg hd u h = Some r)).
+Proof.
+  intros hp hpo hd HW.
+  exact (conj (C04_Chain.pj_wf hp hpo hd HW) (conj (C04_Chain.reached_wf hp hpo hd HW) (C04_Chain.reached_setters hp hpo hd HW))).
+Qed.
+Check C04_reached_premises : forall hp hpo hd, C03_ReachParts.HostWf hp hpo hd ->
+  (forall dbg u, C05_CompSteps3.PJ dbg hp hpo hd u -> wf_b u = true /\ C06_Main.wfh u /\ C04_ParseTotal.base_ok u = true)
+  /\ (forall dbg u, C03_ReachHist.reach03 dbg hp hpo hd u -> wf_b u = true /\ C06_Main.wfh u)
+  /\ (forall dbg dbg' u, C03_ReachHist.reach03 dbg' hp hpo hd u ->
+        (forall p, exists u', Setters.set_path dbg u p = Some u')
+        /\ (forall ops, Setters.path_segments_session dbg u ops = None <-> dbg = true /\ C04_SetPath.psm_assert_fails u = true)
+        /\ (forall h, Setters.set_host dbg hp hpo hd u h = None <-> dbg = true /\ h = None /\ C04_SetHost.known_c04_1 u = true)
+        /\ (forall h, exists r, Setters.set_ip_host dbg hd u h = Some r)).
+Print Assumptions C04_reached_premises.
+
+From RU Require Proofs.C04_Rest Proofs.C04_Origin Proofs.C04_Table Proofs.C16_Origin.
+
+(* Url::origin() / quirks::origin / origin::url_origin, the panic outcome of the model EXACTLY (Proofs/C04_Origin.v): on a
+   well-formed record url_origin panics (url.host().unwrap()) iff the record ITSELF has one of the five tuple schemes
+   (ftp, http, https, ws, wss) and no host - a record wf_b allows and the parser never produces (a special URL always
+   gets a non-empty host); the URLs met in the blob: recursion are parse results, and the origin of a parse result never
+   panics; the model's recursion fuel never runs out (C16_fuel).  Hypothesis HostWf (parse results satisfy wf_b).
+   NOT expressible as a panic outcome: the Rust recursion is on the machine stack - finding F-C04-11 (abort by stack
+   overflow at about 36000 levels of blob: nesting) stays a known class, see C04_linear_statement. *)
+Theorem C04_origin_panic_iff : forall dbg hp ho hd, C03_ReachParts.HostWf hp ho hd ->
+  (forall c u, wf_b u = true ->
+     (Origin.url_origin dbg hp ho hd c u = Origin.OPanic <-> C04_Origin.tuple_no_host_b u = true))
+  /\ (forall c p v, Origin.url_parse dbg hp ho hd p = POk v -> Origin.url_origin dbg hp ho hd c v <> Origin.OPanic)
+  /\ (forall c u, Origin.url_origin dbg hp ho hd c u <> Origin.OFuel).
+Proof. exact (C04_Table.claims_hold C04_Table.P_origin). Qed.
+Check C04_origin_panic_iff : forall dbg hp ho hd, C03_ReachParts.HostWf hp ho hd ->
+  (forall c u, wf_b u = true ->
+     (Origin.url_origin dbg hp ho hd c u = Origin.OPanic <-> C04_Origin.tuple_no_host_b u = true))
+  /\ (forall c p v, Origin.url_parse dbg hp ho hd p = POk v -> Origin.url_origin dbg hp ho hd c v <> Origin.OPanic)
+  /\ (forall c u, Origin.url_origin dbg hp ho hd c u <> Origin.OFuel).
+Print Assumptions C04_origin_panic_iff.
+
+(* the quirks:: module (Proofs/C04_Rest.v): the nine getters on a wf_b record and the nine setters on a wfh record never
+   panic - any argument (set_search: a &str, i.e. scalar values), any host functions, both configurations.  The setters
+   are wrappers over the Url mutators (C04_no_panic_setters / setters2), Parser::parse_host and Parser::parse_port
+   (C04_no_panic_authority_states); set_href is Url::parse (C04_parse_no_base_no_panic). *)
+Theorem C04_no_panic_quirks :
+  (forall dbg u, wf_b u = true ->
+     (exists s, Setters.q_protocol u = Some s) /\ (exists s, Setters.q_username dbg u = Some s)
+     /\ (exists s, Setters.q_password dbg u = Some s) /\ (exists s, Setters.q_host dbg u = Some s)
+     /\ (exists s, Setters.q_hostname u = Some s) /\ (exists s, Setters.q_port dbg u = Some s)
+     /\ (exists s, Setters.q_pathname u = Some s) /\ (exists s, Setters.q_search dbg u = Some s)
+     /\ (exists s, Setters.q_hash dbg u = Some s))
+  /\ (forall dbg hp hpo hd u, C06_Main.wfh u ->
+     (forall v, exists r, Setters.q_set_protocol dbg u v = Some r)
+     /\ (forall v, exists r, Setters.q_set_username dbg u v = Some r)
+     /\ (forall v, exists r, Setters.q_set_password dbg u v = Some r)
+     /\ (forall v, exists r, Setters.q_set_host dbg hp hpo hd u v = Some r)
+     /\ (forall v, exists r, Setters.q_set_hostname dbg hp hpo hd u v = Some r)
+     /\ (forall v, exists r, Setters.q_set_port dbg u v = Some r)
+     /\ (forall v, exists u', Setters.q_set_pathname dbg u v = Some u')
+     /\ (forall v, usv_list v -> exists u', Setters.q_set_search dbg u v = Some u')
+     /\ (forall v, exists u', Setters.q_set_hash dbg u v = Some u')).
+Proof. exact (conj C04_Rest.quirks_getters_total C04_Rest.quirks_setters_total). Qed.
+Check C04_no_panic_quirks :
+  (forall dbg u, wf_b u = true ->
+     (exists s, Setters.q_protocol u = Some s) /\ (exists s, Setters.q_username dbg u = Some s)
+     /\ (exists s, Setters.q_password dbg u = Some s) /\ (exists s, Setters.q_host dbg u = Some s)
+     /\ (exists s, Setters.q_hostname u = Some s) /\ (exists s, Setters.q_port dbg u = Some s)
+     /\ (exists s, Setters.q_pathname u = Some s) /\ (exists s, Setters.q_search dbg u = Some s)
+     /\ (exists s, Setters.q_hash dbg u = Some s))
+  /\ (forall dbg hp hpo hd u, C06_Main.wfh u ->
+     (forall v, exists r, Setters.q_set_protocol dbg u v = Some r)
+     /\ (forall v, exists r, Setters.q_set_username dbg u v = Some r)
+     /\ (forall v, exists r, Setters.q_set_password dbg u v = Some r)
+     /\ (forall v, exists r, Setters.q_set_host dbg hp hpo hd u v = Some r)
+     /\ (forall v, exists r, Setters.q_set_hostname dbg hp hpo hd u v = Some r)
+     /\ (forall v, exists r, Setters.q_set_port dbg u v = Some r)
+     /\ (forall v, exists u', Setters.q_set_pathname dbg u v = Some u')
+     /\ (forall v, usv_list v -> exists u', Setters.q_set_search dbg u v = Some u')
+     /\ (forall v, exists u', Setters.q_set_hash dbg u v = Some u')).
+Print Assumptions C04_no_panic_quirks.
+
+(* "NO PUBLIC FUNCTION PANICS", FUNCTION BY FUNCTION (Proofs/C04_Table.v).  C04_Table.table has one row per entry of the
+   regenerated inventory of the 167 `pub fn`s of the five crates: (crate, name, kind, claim, name of the pinned theorem).
+   C04_Table.claim i is the statement on the Gallina models that decides the rows carrying claim i (36 claims: the
+   theorems of this file and of C03 / C06 / C09 / C13 / C14 / C15 / C17 / C19 / C20, plus new ones for the views,
+   make_relative, the file-path conversions, Origin::new_opaque, uts46::verify_dns_length).  Kinds: KTheorem (no panic under
+   the stated well-formedness premise), KExact (panics exactly in a stated class: iff), KOutside (no panic outside a
+   named known class that has a witness), KByType (plain data / total model function without panic outcome),
+   KDocumented (documented panic on a function without model), KHarness (no model).
+     (1) the key columns of the table ARE the regenerated inventory T_C04_API: a new `pub fn` in /repo breaks this
+         conjunct until a row - a decision - has been added;
+     (2) every claim holds, hence the claim of every row;
+     (3) exactly the KByType / KDocumented / KHarness rows carry the trivial claim;
+     (4) no KByType function has a panic macro of its own in the regenerated panic-site inventory (two listed exceptions);
+     (5) the census: 76 KTheorem, 19 KExact, 17 KOutside, 49 KByType, 2 KDocumented, 4 KHarness. *)
+Theorem C04_no_panic_inventory :
+  map C04_Table.row_key C04_Table.table = T_C04_API
+  /\ ((forall i, C04_Table.claim i) /\ Forall (fun r => C04_Table.claim (C04_Table.r_claim r)) C04_Table.table)
+  /\ forallb (fun r => Bool.eqb (C04_Table.trivial_kind (C04_Table.r_kind r))
+                                (C04_Table.claim_eqb_trivial (C04_Table.r_claim r))) C04_Table.table = true
+  /\ forallb (fun r => negb (C04_Table.kind_eqb (C04_Table.r_kind r) C04_Table.KByType)
+                       || negb (C04_Table.has_panic_macro (C04_Table.r_name r))
+                       || existsb (String.eqb (C04_Table.r_name r)) C04_Table.bytype_exceptions) C04_Table.table = true
+  /\ (length C04_Table.table = 167%nat /\ C04_Table.count_kind C04_Table.KTheorem = 76%nat
+      /\ C04_Table.count_kind C04_Table.KExact = 19%nat /\ C04_Table.count_kind C04_Table.KOutside = 17%nat
+      /\ C04_Table.count_kind C04_Table.KByType = 49%nat /\ C04_Table.count_kind C04_Table.KDocumented = 2%nat
+      /\ C04_Table.count_kind C04_Table.KHarness = 4%nat).
+Proof.
+  exact (conj C04_Table.table_complete (conj (conj C04_Table.claims_hold C04_Table.table_sound)
+        (conj C04_Table.kinds_consistent (conj C04_Table.bytype_no_panic_macro C04_Table.table_counts)))).
+Qed.
+Check C04_no_panic_inventory :
+  map C04_Table.row_key C04_Table.table = T_C04_API
+  /\ ((forall i, C04_Table.claim i) /\ Forall (fun r => C04_Table.claim (C04_Table.r_claim r)) C04_Table.table)
+  /\ forallb (fun r => Bool.eqb (C04_Table.trivial_kind (C04_Table.r_kind r))
+                                (C04_Table.claim_eqb_trivial (C04_Table.r_claim r))) C04_Table.table = true
+  /\ forallb (fun r => negb (C04_Table.kind_eqb (C04_Table.r_kind r) C04_Table.KByType)
+                       || negb (C04_Table.has_panic_macro (C04_Table.r_name r))
+                       || existsb (String.eqb (C04_Table.r_name r)) C04_Table.bytype_exceptions) C04_Table.table = true
+  /\ (length C04_Table.table = 167%nat /\ C04_Table.count_kind C04_Table.KTheorem = 76%nat
+      /\ C04_Table.count_kind C04_Table.KExact = 19%nat /\ C04_Table.count_kind C04_Table.KOutside = 17%nat
+      /\ C04_Table.count_kind C04_Table.KByType = 49%nat /\ C04_Table.count_kind C04_Table.KDocumented = 2%nat
+      /\ C04_Table.count_kind C04_Table.KHarness = 4%nat).
+Print Assumptions C04_no_panic_inventory.
+
+(* ================================================================== cost of the remaining states (task c04fin) *)
+From RU Require Proofs.C04_CostAuth Proofs.C04_CostMime Proofs.C04_CostIdna.
+
+(* the AUTHORITY states of the URL parser (Proofs/C04_CostAuth.v; cost semantics of Model/Cost.v).
+   userinfo: the two passes (search for the last '@', then the encoding pass) - twins equal to the model functions,
+   at most 14 |input| + 4 steps.  host and port: the scans are twins of host_scan / file_host_scan / parse_port_loop;
+   Host::parse / Host::parse_opaque and Display are parameters of the parser model, so their cost enters as the
+   parameters hpc / hpoc (steps of the two host parsers on a text - Host::parse contains the IDNA processing) and the
+   length of the Display text: the state costs at most 3 |input| + 49 + the cost of the host parser on the host text
+   (a piece of the input) + the Display text; with host functions that are linear (a, b; Display d, e) it is linear. *)
+Theorem C04_cost_authority :
+  (forall special l count last,
+     fst (C04_CostAuth.scan_last_at_c special l count last) = scan_last_at special l count last
+     /\ snd (C04_CostAuth.scan_last_at_c special l count last) <= nlen l + 1)
+  /\ (forall l n ser uend hpw hun, usv_list l ->
+     fst (C04_CostAuth.userinfo_loop_c l n ser uend hpw hun) = userinfo_loop l n ser uend hpw hun
+     /\ snd (C04_CostAuth.userinfo_loop_c l n ser uend hpw hun) <= 13 * nlen l + 1)
+  /\ (forall st ser l, usv_list l -> C04_CostAuth.parse_userinfo_cost st ser l <= 14 * nlen l + 4)
+  /\ (forall special l inside acc,
+     fst (C04_CostAuth.host_scan_c special inside acc l) = host_scan special inside acc l
+     /\ snd (C04_CostAuth.host_scan_c special inside acc l) <= 2 * nlen l + 1)
+  /\ (forall l acc,
+     fst (C04_CostAuth.file_host_scan_c acc l) = file_host_scan acc l
+     /\ snd (C04_CostAuth.file_host_scan_c acc l) <= 2 * nlen l + 1)
+  /\ (forall ctx l port any,
+     fst (C04_CostAuth.parse_port_loop_c ctx l port any) = parse_port_loop ctx l port any
+     /\ snd (C04_CostAuth.parse_port_loop_c ctx l port any) <= nlen l + 1)
+  /\ (forall hp hpo hd hpc hpoc ctx st l,
+     nlen (C04_CostAuth.host_text st l) <= nlen l
+     /\ C04_CostAuth.parse_host_and_port_cost hp hpo hd hpc hpoc ctx st l
+        <= 3 * nlen l + 49 + hpc (C04_CostAuth.host_text st l) + hpoc (C04_CostAuth.host_text st l)
+           + match parse_host hp hpo st l with POk (host, _) => nlen (hd host) | _ => 0 end)
+  /\ (forall hp hpo hd hpc hpoc ctx st l a b d e,
+     (forall t, hpc t <= a * nlen t + b) -> (forall t, hpoc t <= a * nlen t + b) ->
+     (forall t h, hp t = Ok h \/ hpo t = Ok h -> nlen (hd h) <= d * nlen t + e) -> nlen (hd (HDomain [])) <= e ->
+     C04_CostAuth.parse_host_and_port_cost hp hpo hd hpc hpoc ctx st l <= (3 + 2 * a + d) * nlen l + (49 + 2 * b + e)).
+Proof.
+  split; [exact C04_CostAuth.scan_last_at_c_spec|]. split; [exact C04_CostAuth.userinfo_loop_c_spec|].
+  split; [exact C04_CostAuth.parse_userinfo_linear|].
+  split; [intros special l inside acc; destruct (C04_CostAuth.host_scan_c_spec special l inside acc) as (H1 & H2 & _); exact (conj H1 H2)|].
+  split; [intros l acc; destruct (C04_CostAuth.file_host_scan_c_spec l acc) as (H1 & H2 & _); exact (conj H1 H2)|].
+  split; [exact C04_CostAuth.parse_port_loop_c_spec|].
+  split; [intros hp hpo hd hpc hpoc ctx st l;
+          exact (conj (C04_CostAuth.host_text_len hp hpo hpc hpoc st l) (C04_CostAuth.parse_host_and_port_cost_le hp hpo hd hpc hpoc ctx st l))|].
+  exact C04_CostAuth.parse_host_and_port_linear.
+Qed.
+Check C04_cost_authority :
+  (forall special l count last,
+     fst (C04_CostAuth.scan_last_at_c special l count last) = scan_last_at special l count last
+     /\ snd (C04_CostAuth.scan_last_at_c special l count last) <= nlen l + 1)
+  /\ (forall l n ser uend hpw hun, usv_list l ->
+     fst (C04_CostAuth.userinfo_loop_c l n ser uend hpw hun) = userinfo_loop l n ser uend hpw hun
+     /\ snd (C04_CostAuth.userinfo_loop_c l n ser uend hpw hun) <= 13 * nlen l + 1)
+  /\ (forall st ser l, usv_list l -> C04_CostAuth.parse_userinfo_cost st ser l <= 14 * nlen l + 4)
+  /\ (forall special l inside acc,
+     fst (C04_CostAuth.host_scan_c special inside acc l) = host_scan special inside acc l
+     /\ snd (C04_CostAuth.host_scan_c special inside acc l) <= 2 * nlen l + 1)
+  /\ (forall l acc,
+     fst (C04_CostAuth.file_host_scan_c acc l) = file_host_scan acc l
+     /\ snd (C04_CostAuth.file_host_scan_c acc l) <= 2 * nlen l + 1)
+  /\ (forall ctx l port any,
+     fst (C04_CostAuth.parse_port_loop_c ctx l port any) = parse_port_loop ctx l port any
+     /\ snd (C04_CostAuth.parse_port_loop_c ctx l port any) <= nlen l + 1)
+  /\ (forall hp hpo hd hpc hpoc ctx st l,
+     nlen (C04_CostAuth.host_text st l) <= nlen l
+     /\ C04_CostAuth.parse_host_and_port_cost hp hpo hd hpc hpoc ctx st l
+        <= 3 * nlen l + 49 + hpc (C04_CostAuth.host_text st l) + hpoc (C04_CostAuth.host_text st l)
+           + match parse_host hp hpo st l with POk (host, _) => nlen (hd host) | _ => 0 end)
+  /\ (forall hp hpo hd hpc hpoc ctx st l a b d e,
+     (forall t, hpc t <= a * nlen t + b) -> (forall t, hpoc t <= a * nlen t + b) ->
+     (forall t h, hp t = Ok h \/ hpo t = Ok h -> nlen (hd h) <= d * nlen t + e) -> nlen (hd (HDomain [])) <= e ->
+     C04_CostAuth.parse_host_and_port_cost hp hpo hd hpc hpoc ctx st l <= (3 + 2 * a + d) * nlen l + (49 + 2 * b + e)).
+Print Assumptions C04_cost_authority.
+
+(* MIME type parsing (Proofs/C04_CostMime.v): for a &str that parses, the cost is at most
+   (14 + P) * (|input| + 1) + 4 where P is the number of parameters of the RESULT - linear whenever the number of
+   accepted parameters is bounded.  The product term is real: finding F-C04-9 - with n pairwise distinct parameter
+   names the cost is at least n (n - 1) / 2 (contains() scans the parameters collected so far), shown by computation
+   for n = 50, 100, 200 together with the linear behaviour of the same-name family. *)
+Theorem C04_cost_mime :
+  (forall s m, usv_list s -> Mime.parse s = Mime.Ok (Some m) ->
+     C04_CostMime.mime_parse_cost s <= (14 + C04_CostMime.plen (Mime.m_params m)) * (nlen s + 1) + 4)
+  /\ ((C04_CostMime.n_params (C04_CostMime.mime_distinct 50) = 50
+       /\ 50 * 49 <= 2 * C04_CostMime.mime_parse_cost (C04_CostMime.mime_distinct 50))
+      /\ (C04_CostMime.n_params (C04_CostMime.mime_distinct 100) = 100
+          /\ 100 * 99 <= 2 * C04_CostMime.mime_parse_cost (C04_CostMime.mime_distinct 100))
+      /\ (C04_CostMime.n_params (C04_CostMime.mime_distinct 200) = 200
+          /\ 200 * 199 <= 2 * C04_CostMime.mime_parse_cost (C04_CostMime.mime_distinct 200)))
+  /\ ((C04_CostMime.n_params (C04_CostMime.mime_same 50) = 1
+       /\ C04_CostMime.mime_parse_cost (C04_CostMime.mime_same 50) <= 15 * (nlen (C04_CostMime.mime_same 50) + 1) + 4)
+      /\ (C04_CostMime.n_params (C04_CostMime.mime_same 100) = 1
+          /\ C04_CostMime.mime_parse_cost (C04_CostMime.mime_same 100) <= 15 * (nlen (C04_CostMime.mime_same 100) + 1) + 4)
+      /\ (C04_CostMime.n_params (C04_CostMime.mime_same 200) = 1
+          /\ C04_CostMime.mime_parse_cost (C04_CostMime.mime_same 200) <= 15 * (nlen (C04_CostMime.mime_same 200) + 1) + 4)).
+Proof.
+  exact (conj C04_CostMime.mime_parse_cost_le
+        (conj C04_CostMime.f_c04_9_quadratic_50_100_200 C04_CostMime.same_name_linear_50_100_200)).
+Qed.
+Check C04_cost_mime :
+  (forall s m, usv_list s -> Mime.parse s = Mime.Ok (Some m) ->
+     C04_CostMime.mime_parse_cost s <= (14 + C04_CostMime.plen (Mime.m_params m)) * (nlen s + 1) + 4)
+  /\ ((C04_CostMime.n_params (C04_CostMime.mime_distinct 50) = 50
+       /\ 50 * 49 <= 2 * C04_CostMime.mime_parse_cost (C04_CostMime.mime_distinct 50))
+      /\ (C04_CostMime.n_params (C04_CostMime.mime_distinct 100) = 100
+          /\ 100 * 99 <= 2 * C04_CostMime.mime_parse_cost (C04_CostMime.mime_distinct 100))
+      /\ (C04_CostMime.n_params (C04_CostMime.mime_distinct 200) = 200
+          /\ 200 * 199 <= 2 * C04_CostMime.mime_parse_cost (C04_CostMime.mime_distinct 200)))
+  /\ ((C04_CostMime.n_params (C04_CostMime.mime_same 50) = 1
+       /\ C04_CostMime.mime_parse_cost (C04_CostMime.mime_same 50) <= 15 * (nlen (C04_CostMime.mime_same 50) + 1) + 4)
+      /\ (C04_CostMime.n_params (C04_CostMime.mime_same 100) = 1
+          /\ C04_CostMime.mime_parse_cost (C04_CostMime.mime_same 100) <= 15 * (nlen (C04_CostMime.mime_same 100) + 1) + 4)
+      /\ (C04_CostMime.n_params (C04_CostMime.mime_same 200) = 1
+          /\ C04_CostMime.mime_parse_cost (C04_CostMime.mime_same 200) <= 15 * (nlen (C04_CostMime.mime_same 200) + 1) + 4)).
+Print Assumptions C04_cost_mime.
+
+(* the two OUTPUT WALKS of Uts46::process (Proofs/C04_CostIdna.v).  wsize = what a walk hands to the sink (one step per
+   write call plus the code points written; a label written as Unicode is one write_char per element).  For ANY labels,
+   already_punycode list, start state and policy: the writes of a walk are bounded by the prefix of the input, flushed at
+   most once (fl_cost), plus, per label, twice the label, twice its mixed-case source slice, the encoder output and a
+   constant (wbound) - no term is multiplied by the number of labels.  The Punycode encoder itself (quadratic) has no
+   cost twin; what is proved about it is the cap (third part): every label of the domain_buffer that the marking run
+   leaves is ASCII (never encoded), marked with U+FFFD (never encoded) or at most 1000 scalar values long - for every
+   byte input, deny list, hyphen mode and every adapter returning scalar values; a walk encodes a label at most once. *)
+Theorem C04_cost_uts46_walks : forall cfg,
+  (forall ff oau dn tld bidi he labels aps seen pte flushed huo,
+     C04_CostIdna.wsize (fst (Uts46.walk1 cfg ff oau dn tld bidi he labels aps seen pte flushed huo))
+     <= C04_CostIdna.fl_cost dn flushed + C04_CostIdna.wbound cfg labels aps)
+  /\ (forall dn he labels aps seen pte flushed,
+     C04_CostIdna.wsize (fst (Uts46.walk2 cfg dn he labels aps seen pte flushed))
+     <= C04_CostIdna.fl_cost dn flushed + C04_CostIdna.wbound cfg labels aps)
+  /\ (forall A hy deny d, Idna_WalkEnc.AdapterUSV A ->
+      match Uts46.process_inner A cfg false hy deny d with
+      | Uts46.IRes _ _ _ db _ => Forall Idna_WalkEnc.capped (Uts46.split_on Uts46.DOT db)
+      | Uts46.IPanic _ => True
+      end).
+Proof.
+  intros cfg. split; [exact (C04_CostIdna.walk1_wsize cfg)|]. split; [exact (C04_CostIdna.walk2_wsize cfg)|].
+  intros A hy deny d HU. exact (C04_CostIdna.labels_capped A cfg HU hy deny d).
+Qed.
+Check C04_cost_uts46_walks : forall cfg,
+  (forall ff oau dn tld bidi he labels aps seen pte flushed huo,
+     C04_CostIdna.wsize (fst (Uts46.walk1 cfg ff oau dn tld bidi he labels aps seen pte flushed huo))
+     <= C04_CostIdna.fl_cost dn flushed + C04_CostIdna.wbound cfg labels aps)
+  /\ (forall dn he labels aps seen pte flushed,
+     C04_CostIdna.wsize (fst (Uts46.walk2 cfg dn he labels aps seen pte flushed))
+     <= C04_CostIdna.fl_cost dn flushed + C04_CostIdna.wbound cfg labels aps)
+  /\ (forall A hy deny d, Idna_WalkEnc.AdapterUSV A ->
+      match Uts46.process_inner A cfg false hy deny d with
+      | Uts46.IRes _ _ _ db _ => Forall Idna_WalkEnc.capped (Uts46.split_on Uts46.DOT db)
+      | Uts46.IPanic _ => True
+      end).
+Print Assumptions C04_cost_uts46_walks.
+
+From RU Require Proofs.C04_CostPathUp Proofs.C04_CostPathDD Proofs.C02_AuthMain Proofs.C03_ReachHost.
+
+(* THE PATH STATE, UPPER BOUND (Proofs/C04_CostPathUp.v, C04_CostPathDD.v) - every scheme type, context and input.
+   dd_count = the number of times finish_segment sees a double-dot segment in the run; run_bound = |serialization| +
+   12 |pending| + 13 |input| bounds every serialization of the run.
+   (1) steps <= 18 |input| + 12 |pending| + 5 + (file: 2 M + 3) + dd_count * (2 M + 3), M = run_bound: the ONLY
+       super-linear part of parse_path is the resolution of double-dot segments (finding F-C04-8 shows it is real);
+   (2) hence linear when the run resolves no double-dot segment;
+   (3) and never more than quadratic (dd_count <= |input| + 1) - with C04_8_dotdots_cost the order n * L is exact;
+   (4) a computable sufficient condition for (2): a non-file scheme type and an input without '.' and '%' (dotfree),
+       started at a segment boundary as parse_path does: then dd_count = 0 and parse_path costs <= 18 |input| + 5;
+   (5) PathSegmentsMut::extend outside finding F-C04-6: for a non-file scheme type and dotfree segments the whole call
+       costs at most 18 per character + 7 per segment + 1 (file: URLs are quadratic: C04_6_refuted). *)
+Theorem C04_cost_path_upper : forall dbg,
+  (forall ctx st ps l ser ss pend hh, usv_list l -> usv_list pend ->
+     snd (parse_path_loop_c dbg ctx st ps l ser ss pend hh)
+     <= 18 * nlen l + 12 * nlen pend + 5 + C04_CostPathUp.fix_bound st (C04_CostPathUp.run_bound ser pend l)
+        + C04_CostPathUp.dd_count dbg ctx st ps l ser ss pend hh * (2 * C04_CostPathUp.run_bound ser pend l + 3))
+  /\ (forall ctx st ps l ser ss pend hh, usv_list l -> usv_list pend ->
+     C04_CostPathUp.dd_count dbg ctx st ps l ser ss pend hh = 0 ->
+     snd (parse_path_loop_c dbg ctx st ps l ser ss pend hh) <= 44 * (nlen ser + nlen pend + nlen l) + 8)
+  /\ (forall ctx st ps l ser ss pend hh, usv_list l -> usv_list pend ->
+     snd (parse_path_loop_c dbg ctx st ps l ser ss pend hh)
+     <= 18 * nlen l + 12 * nlen pend + 5 + (nlen l + 2) * (2 * C04_CostPathUp.run_bound ser pend l + 3))
+  /\ (forall ctx st hh ps ser l, st_is_file st = false -> usv_list l -> C04_CostPathDD.dotfree l ->
+     C04_CostPathUp.dd_count dbg ctx st ps l ser (nlen ser) [] hh = 0
+     /\ snd (parse_path_c dbg ctx st hh ps ser l) <= 18 * nlen l + 5)
+  /\ (forall st ps segs s, st_is_file st = false -> Forall usv_list segs -> Forall C04_CostPathDD.dotfree segs ->
+     snd (psm_extend_loop_c dbg st ps s segs)
+     <= 18 * C04_CostPathDD.total_len segs + 7 * nlen (map nlen segs) + 1).
+Proof.
+  intros dbg. split; [exact (C04_CostPathUp.path_cost_upper dbg)|]. split; [exact (C04_CostPathUp.path_cost_linear_no_dd dbg)|].
+  split; [exact (C04_CostPathUp.path_cost_quadratic dbg)|]. split.
+  - intros ctx st hh ps ser l Hf Hl Hd. split.
+    + exact (C04_CostPathDD.dd_count_dotfree dbg ctx st ps l Hf ser (nlen ser) [] hh Hl Hd (Forall_nil _) (Forall_nil _)
+               (C04_CostPathDD.seg_units_end ser)).
+    + exact (C04_CostPathDD.parse_path_linear_dotfree_nofile dbg ctx st hh ps ser l Hf Hl Hd).
+  - intros st ps segs s Hf Hu Hd. exact (C04_CostPathDD.extend_linear_dotfree dbg st ps segs Hf Hu Hd s).
+Qed.
+Check C04_cost_path_upper : forall dbg,
+  (forall ctx st ps l ser ss pend hh, usv_list l -> usv_list pend ->
+     snd (parse_path_loop_c dbg ctx st ps l ser ss pend hh)
+     <= 18 * nlen l + 12 * nlen pend + 5 + C04_CostPathUp.fix_bound st (C04_CostPathUp.run_bound ser pend l)
+        + C04_CostPathUp.dd_count dbg ctx st ps l ser ss pend hh * (2 * C04_CostPathUp.run_bound ser pend l + 3))
+  /\ (forall ctx st ps l ser ss pend hh, usv_list l -> usv_list pend ->
+     C04_CostPathUp.dd_count dbg ctx st ps l ser ss pend hh = 0 ->
+     snd (parse_path_loop_c dbg ctx st ps l ser ss pend hh) <= 44 * (nlen ser + nlen pend + nlen l) + 8)
+  /\ (forall ctx st ps l ser ss pend hh, usv_list l -> usv_list pend ->
+     snd (parse_path_loop_c dbg ctx st ps l ser ss pend hh)
+     <= 18 * nlen l + 12 * nlen pend + 5 + (nlen l + 2) * (2 * C04_CostPathUp.run_bound ser pend l + 3))
+  /\ (forall ctx st hh ps ser l, st_is_file st = false -> usv_list l -> C04_CostPathDD.dotfree l ->
+     C04_CostPathUp.dd_count dbg ctx st ps l ser (nlen ser) [] hh = 0
+     /\ snd (parse_path_c dbg ctx st hh ps ser l) <= 18 * nlen l + 5)
+  /\ (forall st ps segs s, st_is_file st = false -> Forall usv_list segs -> Forall C04_CostPathDD.dotfree segs ->
+     snd (psm_extend_loop_c dbg st ps s segs)
+     <= 18 * C04_CostPathDD.total_len segs + 7 * nlen (map nlen segs) + 1).
+Print Assumptions C04_cost_path_upper.
+
+From RU Require Proofs.C04_CostPuny.
+
+(* the Punycode ENCODER (Proofs/C04_CostPuny.v): one pass for the basic code points, then per iteration of
+   `while processed < input_length` one pass for the minimum and one pass of the inner loop; digits are counted by the
+   length of the output.  (1) every input, both callers: steps <= n + (n + 1)(2n + 2) + 1 + |output| - the quadratic
+   upper bound for the PUBLIC encoder (finding F-C04-10: no cap there); (2) under the cap of the internal caller
+   (n <= 1000: what the uts46 walks can hand to it, C04_cost_uts46_walks part 3): steps <= 2005 (n + 1) + |output|, a
+   constant per character; (3) F-C04-10 in the cost model by computation: n pairwise distinct CJK characters cost at
+   least 2 n^2 (n = 50, 100, 200), 200 copies of one character at most 1020.  The decoder has no cost twin. *)
+Theorem C04_cost_punycode :
+  (forall cfg ext input,
+     C04_CostPuny.encode_cost cfg ext input
+     <= C04_CostPuny.plen input + (C04_CostPuny.plen input + 1) * (2 * C04_CostPuny.plen input + 2) + 1
+        + C04_CostPuny.out_len (Punycode.encode_into cfg ext input))
+  /\ (forall cfg ext input, C04_CostPuny.plen input <= 1000 ->
+     C04_CostPuny.encode_cost cfg ext input
+     <= 2005 * (C04_CostPuny.plen input + 1) + C04_CostPuny.out_len (Punycode.encode_into cfg ext input))
+  /\ (2 * 50 * 50 <= C04_CostPuny.encode_cost false true (C04_CostPuny.distinct_cjk 50)
+      /\ 2 * 100 * 100 <= C04_CostPuny.encode_cost false true (C04_CostPuny.distinct_cjk 100)
+      /\ 2 * 200 * 200 <= C04_CostPuny.encode_cost false true (C04_CostPuny.distinct_cjk 200)
+      /\ C04_CostPuny.encode_cost false true (map (fun _ => 19968) (C04_CostPuny.distinct_cjk 200)) <= 5 * 200 + 20).
+Proof.
+  exact (conj C04_CostPuny.encode_cost_le (conj C04_CostPuny.encode_cost_capped C04_CostPuny.f_c04_10_quadratic_50_100_200)).
+Qed.
+Check C04_cost_punycode :
+  (forall cfg ext input,
+     C04_CostPuny.encode_cost cfg ext input
+     <= C04_CostPuny.plen input + (C04_CostPuny.plen input + 1) * (2 * C04_CostPuny.plen input + 2) + 1
+        + C04_CostPuny.out_len (Punycode.encode_into cfg ext input))
+  /\ (forall cfg ext input, C04_CostPuny.plen input <= 1000 ->
+     C04_CostPuny.encode_cost cfg ext input
+     <= 2005 * (C04_CostPuny.plen input + 1) + C04_CostPuny.out_len (Punycode.encode_into cfg ext input))
+  /\ (2 * 50 * 50 <= C04_CostPuny.encode_cost false true (C04_CostPuny.distinct_cjk 50)
+      /\ 2 * 100 * 100 <= C04_CostPuny.encode_cost false true (C04_CostPuny.distinct_cjk 100)
+      /\ 2 * 200 * 200 <= C04_CostPuny.encode_cost false true (C04_CostPuny.distinct_cjk 200)
+      /\ C04_CostPuny.encode_cost false true (map (fun _ => 19968) (C04_CostPuny.distinct_cjk 200)) <= 5 * 200 + 20).
+Print Assumptions C04_cost_punycode.
+
+(* ================================================================== the overall linear-time statement *)
+(* "runs no longer than a constant times its input length", IN THE COST MODEL, with the exact known classes.  Every cost
+   twin of the development (Model/Cost.v, Proofs/C04_Cost*.v) has a linear bound, except inside:
+     F-C04-8  (path state: double-dot segments resolved behind a long prefix)  - linear iff no double-dot finish, part 6;
+     F-C04-6  (PathSegmentsMut::extend on file: URLs)                          - linear for non-file schemes, part 6;
+     F-C04-9  (MIME parameters with pairwise distinct names)                   - linear for a bounded number, part 7;
+   and relative to parameters where the model has parameters (host functions; the Punycode encoder inside the uts46
+   walks, capped at 1000 scalar values: part 8).
+   NOT expressible here, because the function has no cost twin (the harness doubling experiment only):
+     F-C04-10 (the public punycode functions: the encoder is quadratic and uncapped - upper bound and witnesses in
+               C04_cost_punycode, linear under the cap: part 9 -, the decoder has no cost twin),
+     F-C04-11 (Url::origin on nested blob: URLs: recursion depth = number of "blob:" levels, bounded only by the number
+               of ':' in the serialization - C16_parse_colons - and on the machine stack in the Rust),
+     the label pipeline process_inner of uts46 (linear passes plus the capped Punycode decoder, relative to the
+     normalizer of the adapter), the data: header pre-parser, the setters other than extend, make_relative, file paths. *)
+Definition C04_linear_statement : Prop :=
+  (* 1 percent_encoding *)
+  (forall S bs, snd (decode_c bs) <= 3 * nlen bs /\ snd (pe_chunks_c S bs) <= 5 * nlen bs + 1)
+  (* 2 form_urlencoded *)
+  /\ (forall bs, snd (bser_chunks_c bs) <= 5 * nlen bs + 1
+                 /\ snd (parse_next_c bs) <= 5 * (nlen bs - nlen (C04_Cost.pnext_rest (FormUrlencoded.parse_next bs))) + 2)
+  (* 3 base64 *)
+  /\ (forall (W E : Type) (write : W -> list N -> W * option E) d input, snd (feed_c write d input) <= nlen input)
+  (* 4 fragment, query, opaque path *)
+  /\ (forall set enc iup ctx ser l, C04_Cost.enc_ok enc -> usv_list l ->
+        snd (parse_fragment_loop_c ser [] l) <= 13 * nlen l + 1
+        /\ snd (parse_query_loop_c set enc iup ser [] l) <= 13 * nlen l + 1
+        /\ snd (parse_cannot_be_a_base_path_c ctx ser l) <= 13 * nlen l + 1)
+  (* 5 userinfo; host and port relative to linear host functions *)
+  /\ (forall st ser l, usv_list l -> C04_CostAuth.parse_userinfo_cost st ser l <= 14 * nlen l + 4)
+  /\ (forall hp hpo hd hpc hpoc ctx st l a b d e,
+        (forall t, hpc t <= a * nlen t + b) -> (forall t, hpoc t <= a * nlen t + b) ->
+        (forall t h, hp t = Ok h \/ hpo t = Ok h -> nlen (hd h) <= d * nlen t + e) -> nlen (hd (HDomain [])) <= e ->
+        C04_CostAuth.parse_host_and_port_cost hp hpo hd hpc hpoc ctx st l <= (3 + 2 * a + d) * nlen l + (49 + 2 * b + e))
+  (* 6 path state outside F-C04-8, extend outside F-C04-6 *)
+  /\ (forall dbg ctx st ps l ser ss pend hh, usv_list l -> usv_list pend ->
+        C04_CostPathUp.dd_count dbg ctx st ps l ser ss pend hh = 0 ->
+        snd (parse_path_loop_c dbg ctx st ps l ser ss pend hh) <= 44 * (nlen ser + nlen pend + nlen l) + 8)
+  /\ (forall dbg st ps segs s, st_is_file st = false -> Forall usv_list segs -> Forall C04_CostPathDD.dotfree segs ->
+        snd (psm_extend_loop_c dbg st ps s segs) <= 18 * C04_CostPathDD.total_len segs + 7 * nlen (map nlen segs) + 1)
+  (* 7 MIME outside F-C04-9 *)
+  /\ (forall s m, usv_list s -> Mime.parse s = Mime.Ok (Some m) ->
+        C04_CostMime.mime_parse_cost s <= (14 + C04_CostMime.plen (Mime.m_params m)) * (nlen s + 1) + 4)
+  (* 8 uts46 output walks; the encoder is capped *)
+  /\ (forall cfg ff oau dn tld bidi he labels aps seen pte flushed huo,
+        C04_CostIdna.wsize (fst (Uts46.walk1 cfg ff oau dn tld bidi he labels aps seen pte flushed huo))
+        <= C04_CostIdna.fl_cost dn flushed + C04_CostIdna.wbound cfg labels aps)
+  /\ (forall cfg dn he labels aps seen pte flushed,
+        C04_CostIdna.wsize (fst (Uts46.walk2 cfg dn he labels aps seen pte flushed))
+        <= C04_CostIdna.fl_cost dn flushed + C04_CostIdna.wbound cfg labels aps)
+  /\ (forall A cfg hy deny d, Idna_WalkEnc.AdapterUSV A ->
+        match Uts46.process_inner A cfg false hy deny d with
+        | Uts46.IRes _ _ _ db _ => Forall Idna_WalkEnc.capped (Uts46.split_on Uts46.DOT db)
+        | Uts46.IPanic _ => True
+        end)
+  (* 9 the Punycode encoder under the cap of its internal caller (1000 scalar values): a constant per character *)
+  /\ (forall cfg ext input, C04_CostPuny.plen input <= 1000 ->
+        C04_CostPuny.encode_cost cfg ext input
+        <= 2005 * (C04_CostPuny.plen input + 1) + C04_CostPuny.out_len (Punycode.encode_into cfg ext input))
+  (* the known classes are inhabited: no linear bound for the path state (F-C04-8) *)
+  /\ (forall a b : N, exists pre l dbg hh, usv_list l /\
+        a * (nlen (pre ++ [47]) + nlen l) + b
+        < snd (parse_path_loop_c dbg CUrlParser STNotSpecial (nlen pre) l (pre ++ [47]) (nlen (pre ++ [47])) [] hh)).
+
+Theorem C04_linear : C04_linear_statement.
+Proof.
+  split; [intros S bs; exact (conj (C04_Cost.decode_c_linear bs) (C04_Cost.pe_chunks_c_linear S bs))|].
+  split; [intros bs; exact (conj (C04_Cost.bser_chunks_c_linear bs) (C04_Cost.parse_next_c_linear bs))|].
+  split; [intros W E write d input; exact (proj2 (C04_Cost.feed_c_spec write input d))|].
+  split; [intros set enc iup ctx ser l He Hl;
+          exact (conj (proj2 (C04_Cost.parse_fragment_c_linear ser l Hl))
+                (conj (proj2 (C04_Cost.parse_query_c_linear set enc iup ser l He Hl)) (proj2 (C04_Cost.parse_cbb_c_linear ctx ser l Hl))))|].
+  split; [exact C04_CostAuth.parse_userinfo_linear|]. split; [exact C04_CostAuth.parse_host_and_port_linear|].
+  split; [exact C04_CostPathUp.path_cost_linear_no_dd|].
+  split; [intros dbg st ps segs s Hf Hu Hd; exact (C04_CostPathDD.extend_linear_dotfree dbg st ps segs Hf Hu Hd s)|].
+  split; [exact C04_CostMime.mime_parse_cost_le|].
+  split; [exact C04_CostIdna.walk1_wsize|]. split; [exact C04_CostIdna.walk2_wsize|].
+  split; [intros A cfg hy deny d HU; exact (C04_CostIdna.labels_capped A cfg HU hy deny d)|].
+  split; [exact C04_CostPuny.encode_cost_capped|].
+  exact C04_CostPath.path_cost_not_linear.
+Qed.
+Check C04_linear : C04_linear_statement.
+Print Assumptions C04_linear.
+
+(* non-vacuity of the new theorems: a concrete host-function instance meets HostWf and a parse / join chain exists (PJ);
+   the table has a row for Url::origin carrying the exact claim; a run with three ".." has dd_count 3, one without has 0;
+   the cost twins of the userinfo / host / port states on "u:p@h:80/" *)
+Example C04_fin_premises_hold :
+  C03_ReachParts.HostWf C02_AuthMain.ex_hp C02_AuthMain.ex_hp C02_AuthMain.ex_hd
+  /\ (exists u, C05_CompSteps3.PJ true C02_AuthMain.ex_hp C02_AuthMain.ex_hp C02_AuthMain.ex_hd u /\ ser u = [104;116;116;112;58;47;47;104;47;120])
+  /\ C04_CostPathUp.dd_count true CUrlParser STNotSpecial 2 (C04_CostPath.dotdots 3) [97; 58; 47] 3 [] false = 3
+  /\ C04_CostPathUp.dd_count true CUrlParser STNotSpecial 2 [98; 47; 99; 63; 113] [97; 58; 47] 3 [] false = 0
+  /\ C04_CostPathDD.dotfree [98; 47; 99; 63; 113]
+  /\ C04_CostAuth.parse_userinfo_cost STNotSpecial [97; 58; 47; 47] [117; 58; 112; 64; 104; 58; 56; 48; 47] = 18
+  /\ snd (C04_CostAuth.host_scan_c false false [] [104; 58; 56; 48; 47]) = 3
+  /\ C04_Origin.tuple_no_host_b C04_ParseTotal.cbb_special_base = true.
+Proof.
+  split; [exact C03_ReachHost.ex_host_wf|]. split.
+  - eexists. split.
+    + eapply C05_CompSteps3.PJ_join with (ovr := None) (input := [120]);
+        [eapply C05_CompSteps3.PJ_parse with (ovr := None) (input := [104;116;116;112;58;47;47;104;47;97]); vm_compute; reflexivity
+        | vm_compute; reflexivity].
+    + reflexivity.
+  - split; [vm_compute; reflexivity|]. split; [vm_compute; reflexivity|].
+    split; [unfold C04_CostPathDD.dotfree; repeat constructor; discriminate|].
+    split; [vm_compute; reflexivity|]. split; [vm_compute; reflexivity|]. vm_compute. reflexivity.
+Qed.
+
+(* finding F-C04-9 for all n (kept as a Definition; instances n = 50, 100, 200 are in C04_cost_mime) *)
+Definition C04_9_quadratic_statement : Prop :=
+  forall n, N.of_nat n * (N.of_nat n - 1) <= 2 * C04_CostMime.mime_parse_cost (C04_CostMime.mime_distinct n).
+
+(* why the sufficient condition of C04_cost_path_upper (4) / (5) is on the CHARACTERS of a segment: push(".<TAB>.") is not
+   skipped by extend (only "." and ".." are), the Input iterator drops the TAB, the path state sees a double dot and POPS
+   the last segment: http://h/a/b becomes http://h/a/ in both configurations, whereas push("..") leaves the URL alone
+   (documented).  Replayed on the crate (see the final report of task c04fin); it is a frame-condition matter (C06), not a
+   panic or a cost finding. *)
+Theorem C04_push_tab_dotdot_witness :
+  Setters.path_segments_session true C04_CostPathDD.w_tab_url [Setters.PPush [46; 9; 46]]
+  = Some (mkUrl [104;116;116;112;58;47;47;104;47;97;47] 4 7 7 8 HI_Domain None 8 None None, Setters.SOk)
+  /\ Setters.path_segments_session false C04_CostPathDD.w_tab_url [Setters.PPush [46; 9; 46]]
+     = Some (mkUrl [104;116;116;112;58;47;47;104;47;97;47] 4 7 7 8 HI_Domain None 8 None None, Setters.SOk)
+  /\ Setters.path_segments_session true C04_CostPathDD.w_tab_url [Setters.PPush [46; 46]] = Some (C04_CostPathDD.w_tab_url, Setters.SOk)
+  /\ C04_CostPathUp.dd_count true CPathSegmentSetter STSpecialNotFile 8 [46; 9; 46] [104;116;116;112;58;47;47;104;47;97;47;98;47] 13 [] true = 1.
+Proof. exact C04_CostPathDD.push_tab_dotdot_witness. Qed.
+Check C04_push_tab_dotdot_witness :
+  Setters.path_segments_session true C04_CostPathDD.w_tab_url [Setters.PPush [46; 9; 46]]
+  = Some (mkUrl [104;116;116;112;58;47;47;104;47;97;47] 4 7 7 8 HI_Domain None 8 None None, Setters.SOk)
+  /\ Setters.path_segments_session false C04_CostPathDD.w_tab_url [Setters.PPush [46; 9; 46]]
+     = Some (mkUrl [104;116;116;112;58;47;47;104;47;97;47] 4 7 7 8 HI_Domain None 8 None None, Setters.SOk)
+  /\ Setters.path_segments_session true C04_CostPathDD.w_tab_url [Setters.PPush [46; 46]] = Some (C04_CostPathDD.w_tab_url, Setters.SOk)
+  /\ C04_CostPathUp.dd_count true CPathSegmentSetter STSpecialNotFile 8 [46; 9; 46] [104;116;116;112;58;47;47;104;47;97;47;98;47] 13 [] true = 1.
+Print Assumptions C04_push_tab_dotdot_witness.
+
+(* C04_reached_premises for the LARGEST reachability relation of the development: CReach3 (Proofs/C05_CompSteps3.v) =
+   parse, join and all 19 mutators - the Url setters, path_segments_mut sessions, query_pairs_mut sessions and the
+   quirks setters - each step outside the known classes (step_gate3: the frame hypotheses behind F-C02-2 / -4 / -8,
+   F-C03-5, F-C06-5, stated on the pair of records).  Every such record satisfies wf_b and wfh, hence is a legal
+   receiver of C04_no_panic_accessors / _setters / _setters2 / _quirks and of the rows of C04_no_panic_inventory that
+   have these premises.  Hypotheses on the host functions: HostWf and IpDisp (Display writes an address as a non-empty
+   text that does not start with ':' / '@'); C09 proves both of the host model. *)
+Theorem C04_reached_premises_all : forall hp hpo hd, C03_ReachParts.HostWf hp hpo hd -> C05_CompSteps3.IpDisp hd ->
+  forall dbg u, C05_CompSteps3.CReach3 dbg hp hpo hd u -> wf_b u = true /\ C06_Main.wfh u.
+Proof. exact C04_Chain.creach3_wf. Qed.
+Check C04_reached_premises_all : forall hp hpo hd, C03_ReachParts.HostWf hp hpo hd -> C05_CompSteps3.IpDisp hd ->
+  forall dbg u, C05_CompSteps3.CReach3 dbg hp hpo hd u -> wf_b u = true /\ C06_Main.wfh u.
+Print Assumptions C04_reached_premises_all.
+
+From RU Require Proofs.C05_FinEx.
+(* the hypotheses of C04_reached_premises_all have an instance, and a history through a quirks host setter exists in it *)
+Example C04_reached_all_inhabited : C05_FinEx.fin_example_stmt.
+Proof. exact C05_FinEx.fin_example. Qed.
